@@ -54,6 +54,9 @@ fn run_one_inner(cfg: &Cfg, plan: &[Action], opts: &RunOpts) -> RunOutcome {
         for i in 0..cl.n() {
             cl.start(i);
         }
+        for k in 0..cl.twins.len() {
+            cl.start_twin(k);
+        }
         cl.run_steps(50_000).await;
         for a in plan {
             if cl.hub.has_violation() {
